@@ -386,8 +386,13 @@ def rule_frame(ctx) -> None:
     l2 = canon(lay2 or [])
     l2n = [(sz, k, o, sb if src == "self.FRAME_START_BYTE" else src) if k == "int" else (sz, k, o) for (sz, k, o, *rest) in [x if len(x) == 4 else (x[0], x[1], x[2]) for x in l2] for src in [rest[0] if rest else None]]
     want2 = [(1, "int", "-", sb), (1, "int", "-", "frame_type"), (2, "int", "little", "len(data)"), (None, "bytes", "data")]
-    chk.decide(l1n == want1 and l2n == want2, "C10.frame", f"{SER}::MbootSerialProtocol frame", "frame = start | type | length(LE16) | crc(LE16) | payload; CRC input = the same fields without the crc (byte layout, however it is assembled)",
-               f"frame layout {l1n}; CRC input layout {l2n}", f"{want1} / {want2}", A.loc(SER, cf.node))
+    # the byte layout read off the syntax is a cross-reference only: the frame and its CRC input are DECIDED by C10.serial-model, which
+    # interprets _create_frame / _calc_frame_crc and compares the bytes with the reference frame (an assembly the normal form does not
+    # recognise - e.g. a packed header plus bytes(data) - is therefore reported, not alarmed)
+    if l1n == want1 and l2n == want2:
+        chk.ok("C10.frame", f"{SER}::MbootSerialProtocol frame", "frame = start | type | length(LE16) | crc(LE16) | payload; CRC input = the same fields without the crc (byte layout normal form)")
+    else:
+        chk.report(f"C10.frame (cross-reference): frame layout normal form {l1n}; CRC input {l2n} - not the recognised shape; the frame bytes are decided by C10.serial-model")
     crc_calls2 = [norm(c) for c in ast.walk(cf.node) if isinstance(c, ast.Call) and norm(c.func) == "self._calc_frame_crc"]
     chk.decide(crc_calls2 == ["self._calc_frame_crc(data, frame_type.tag)"], "C10.frame", cf.qual + " crc", "the frame carries the CRC of its own type and payload", f"{crc_calls2}", "", A.loc(SER, cf.node))
     # reader: 2-byte length, 2-byte crc, payload of that length, CRC recomputed over (payload, frame type) and compared -> raise
